@@ -68,7 +68,7 @@ func verifReadsWhileRacing(acc eds.AccessorStreamer, cells [][]libshare.Share, k
 // either present and fully readable or absent with no file left; every file
 // opened is closed once readers are done and the block removed.
 //
-//verif:opts nopanic nodeadlock noreplay preempt=1 preempt_thorough=2 maxwall=1700 cover=reader-served,reader-notfound,present-at-end,absent-at-end,cached,evicting
+//verif:opts nopanic nodeadlock noreplay preempt=1 preempt_thorough=2 threads=14 maxwall=1700 cover=reader-served,reader-notfound,present-at-end,absent-at-end,cached,evicting,slow-reader
 func VerifH_C08_ConcurrentStoreUseIsSafe() {
 	verifSetup()
 	const k, tag, h1, h2 = 2, 0x21, uint64(7), uint64(1031) // 7 and 1031 share a lock stripe (mod 1024)
@@ -96,6 +96,12 @@ func VerifH_C08_ConcurrentStoreUseIsSafe() {
 		nd.Assert(st.PutODSQ4(ctx, roots, h1, sq) == nil, "put-succeeds")
 	}
 
+	slowReader := withCaches && nd.Choice(2, "slowReader") == 1
+	release := make(chan struct{})
+	_, sq3 := shwap.VerifModelSquare(k, 2, ns)
+	roots3 := verifTaggedRoots(0x23, 2*k)
+	verifRootsOf[sq3] = roots3
+
 	var wg sync.WaitGroup
 	run := func(f func()) {
 		wg.Add(1)
@@ -115,11 +121,25 @@ func VerifH_C08_ConcurrentStoreUseIsSafe() {
 			return
 		}
 		nd.Cover("reader-served")
+		if slowReader {
+			// a slow reader keeps its accessor until an operation on an
+			// INDEPENDENT height (other store stripe, other data hash; it only
+			// shares the cache's lock stripe, mod 256) has completed: that
+			// operation must not depend on this reader letting go
+			nd.Cover("slow-reader")
+			<-release
+		}
 		verifReadsWhileRacing(acc, cells, k, roots, tag)
 	})
 	run(func() { // remover
 		nd.Assert(st.RemoveODSQ4(ctx, h1, hash) == nil, "remove-succeeds")
 	})
+	if slowReader {
+		run(func() { // spawned after the remover: by default it runs once the removal waits for the reader
+			nd.Assert(st.PutODSQ4(ctx, roots3, h1+256, sq3) == nil, "put-succeeds")
+			close(release)
+		})
+	}
 	if withCaches {
 		run(func() { // a second height pushes the first out of the one-slot caches
 			nd.Cover("evicting")
@@ -152,6 +172,7 @@ func VerifH_C08_ConcurrentStoreUseIsSafe() {
 	nd.Assert(st.RemoveODSQ4(ctx, h1, hash) == nil, "remove-succeeds")
 	if withCaches {
 		nd.Assert(st.RemoveODSQ4(ctx, h2, share.DataHash(verifHashOfTag(0x22))) == nil, "remove-succeeds")
+		nd.Assert(st.RemoveODSQ4(ctx, h1+256, share.DataHash(verifHashOfTag(0x23))) == nil, "remove-succeeds")
 	}
 	nd.RunOthers()
 	nd.Assert(veriffs.OpenHandles() == 0, "every-opened-file-is-released")
